@@ -201,6 +201,14 @@ impl<'a> Interp<'a> {
                         let v = self.eval(env, e)?;
                         env.push((*x, v));
                     }
+                    Stmt::LetTup(xs, _, e) => match self.eval(env, e)? {
+                        V::Tup(vs) if vs.len() == xs.len() => {
+                            for (x, v) in xs.iter().zip(vs) {
+                                env.push((*x, v));
+                            }
+                        }
+                        _ => return stuck("destructuring"),
+                    },
                     Stmt::Expr(e) => {
                         self.eval(env, e)?;
                     }
@@ -429,7 +437,47 @@ impl<'a> Interp<'a> {
                     _ => stuck("at"),
                 }
             }
-            Expr::Snap(a) | Expr::Desnap(a) => self.eval(env, a),
+            Expr::Snap(a) | Expr::Desnap(a) | Expr::BoxNew(a) | Expr::Unbox(a) => self.eval(env, a),
+            Expr::Arith(k, o, t, a, b) => {
+                let x = self.eval(env, a)?;
+                let y = self.eval(env, b)?;
+                match (t, x, y) {
+                    (Ty::Int(i), V::Int(x), V::Int(y)) => {
+                        let r = match o {
+                            Binop::Add => &x + &y,
+                            Binop::Sub => &x - &y,
+                            Binop::Mul if !i.signed() => &x * &y,
+                            _ => return stuck("arith op"),
+                        };
+                        let in_range = r >= i.lo() && r <= i.hi();
+                        let m = BigInt::one() << i.bits();
+                        let mut w = (&r - i.lo()) % &m;
+                        if w.is_negative() {
+                            w += &m;
+                        }
+                        let w = w + i.lo();
+                        Ok(match k {
+                            ArithK::Wrapping => V::Int(w),
+                            ArithK::Overflowing => V::Tup(vec![V::Int(w), V::Bool(!in_range)]),
+                            ArithK::Checked => {
+                                if in_range {
+                                    V::Enum(0, Box::new(V::Int(r)))
+                                } else {
+                                    V::Enum(1, Box::new(V::unit()))
+                                }
+                            }
+                            ArithK::Saturating => V::Int(if r > i.hi() {
+                                i.hi()
+                            } else if r < i.lo() {
+                                i.lo()
+                            } else {
+                                r
+                            }),
+                        })
+                    }
+                    _ => stuck("arith operands"),
+                }
+            }
         }
     }
 
@@ -477,6 +525,7 @@ impl<'a> Interp<'a> {
                 1 + self.p.variants(t).iter().map(|m| self.tsize(m)).max().unwrap_or(0)
             }
             Ty::Arr(_) => 2,
+            Ty::Boxed(_) => 1,
             Ty::Snap(t) => self.tsize(t),
         }
     }
